@@ -3267,6 +3267,11 @@ func (db *DB) newGuardSet(owner uint64) *GuardSet {
 // Returns an error if no locks are supplied.
 func (db *DB) TryLocks(ctx context.Context, owner uint64, lockTypes []LockType) (bool, error) {
 	guardSet := db.CreateGuardSetIfNotExists(owner)
+
+	// A request for several locks is granted or refused as a whole, as a
+	// byte-range lock is. Remember the state of every guard taken so that a
+	// refusal can put them back.
+	prev := make([]RWMutexState, 0, len(lockTypes))
 	for _, lockType := range lockTypes {
 		guard := guardSet.Guard(lockType)
 
@@ -3283,9 +3288,11 @@ func (db *DB) TryLocks(ctx context.Context, owner uint64, lockTypes []LockType) 
 			db.writeLock.State() != RWMutexStateUnlocked && // is there a writer?
 			guardSet.write.State() != RWMutexStateExclusive { // is this owner the writer?
 			TraceLog.Printf("[TryLock(%s)]: type=%s owner=%d status=IMPLICIT-FAIL", db.name, lockType, owner)
+			restoreGuards(guardSet, lockTypes, prev)
 			return false, nil
 		}
 
+		state := guard.State()
 		ok := guard.TryLock()
 
 		status := "OK"
@@ -3295,8 +3302,10 @@ func (db *DB) TryLocks(ctx context.Context, owner uint64, lockTypes []LockType) 
 		TraceLog.Printf("[TryLock(%s)]: type=%s owner=%d status=%s", db.name, lockType, owner, status)
 
 		if !ok {
+			restoreGuards(guardSet, lockTypes, prev)
 			return false, nil
 		}
+		prev = append(prev, state)
 
 		// TODO(fwd): Move remote lock to lock byte on database.
 
@@ -3309,6 +3318,19 @@ func (db *DB) TryLocks(ctx context.Context, owner uint64, lockTypes []LockType) 
 		//}
 	}
 	return true, nil
+}
+
+// restoreGuards returns the guards of the first len(prev) lock types to the
+// states they had before they were locked exclusively.
+func restoreGuards(guardSet *GuardSet, lockTypes []LockType, prev []RWMutexState) {
+	for i, state := range prev {
+		switch guard := guardSet.Guard(lockTypes[i]); state {
+		case RWMutexStateUnlocked:
+			guard.Unlock()
+		case RWMutexStateShared:
+			guard.TryRLock() // downgrade of the owner's own lock, always granted
+		}
+	}
 }
 
 // CanLock returns true if all locks can acquire a write lock.
@@ -3328,8 +3350,18 @@ func (db *DB) CanLock(ctx context.Context, owner uint64, lockTypes []LockType) (
 // Returns an error if no locks are supplied.
 func (db *DB) TryRLocks(ctx context.Context, owner uint64, lockTypes []LockType) bool {
 	guardSet := db.CreateGuardSetIfNotExists(owner)
+
+	// A request for several locks is granted or refused as a whole, as a
+	// byte-range lock is. Locks the owner holds exclusively are downgraded
+	// last: that cannot be refused, so a refusal leaves them as they were.
+	var taken []LockType
 	for _, lockType := range lockTypes {
-		ok := guardSet.Guard(lockType).TryRLock()
+		guard := guardSet.Guard(lockType)
+		state := guard.State()
+		if state == RWMutexStateExclusive {
+			continue
+		}
+		ok := guard.TryRLock()
 
 		status := "OK"
 		if !ok {
@@ -3338,7 +3370,19 @@ func (db *DB) TryRLocks(ctx context.Context, owner uint64, lockTypes []LockType)
 		TraceLog.Printf("[TryRLock(%s)]: type=%s owner=%d status=%s", db.name, lockType, owner, status)
 
 		if !ok {
+			for _, lockType := range taken {
+				guardSet.Guard(lockType).Unlock()
+			}
 			return false
+		}
+		if state == RWMutexStateUnlocked {
+			taken = append(taken, lockType)
+		}
+	}
+	for _, lockType := range lockTypes {
+		if guard := guardSet.Guard(lockType); guard.State() == RWMutexStateExclusive {
+			guard.TryRLock()
+			TraceLog.Printf("[TryRLock(%s)]: type=%s owner=%d status=OK", db.name, lockType, owner)
 		}
 	}
 	return true
